@@ -19,9 +19,10 @@ Proof. exact start_discipline_holds. Qed.
 
 (** ... and it is called exactly once, provided the layers below do what C10/C09
     demand of them (no non-Fault exception out of the input protocol or out of
-    the fault serialiser) and the body is not a lazy iterable that fails while
-    chunked=False joins it (the known finding below) *)
-Theorem C13_one_start : forall c r, total_layers r -> join_ok c r ->
+    the fault serialiser); in particular also when chunked=False joins a lazily
+    produced body that fails (repaired in /repo: "fix: report a result generator
+    that fails while the unchunked response is joined") *)
+Theorem C13_one_start : forall c r, total_layers r ->
   count is_start (trace c r) = 1%nat.
 Proof. exact one_start. Qed.
 
@@ -29,17 +30,6 @@ Proof. exact one_start. Qed.
 Theorem C13_no_start_means_raise : forall c r, count is_start (trace c r) = 0%nat ->
   exists e, o_resp (run c r) = Escapes e.
 Proof. exact no_start_raises. Qed.
-
-(** the guard [join_ok] is needed: the full statement is false of the model *)
-Theorem C13_one_start_lazy_join_refuted : exists c r,
-  total_layers r /\ count is_start (trace c r) = 0%nat.
-Proof.
-  exists (Cfg false 100 10),
-         (Req false WNoDoc None [] false SOk SOk (UReturn (RGen FItem))
-              (SerOk (BLazy [3] true)) (ESerOk [5]) None true).
-  split; [|reflexivity].
-  repeat split; try discriminate. eexists; reflexivity.
-Qed.
 
 (** a Content-Length header, when sent, is the size of the body: what the server
     has been handed is a prefix of a body of exactly that many bytes, and all of
@@ -118,9 +108,9 @@ Definition ex_req := Req false WNoDoc (Some [49; 54; 56]) [100; 30; 38; 0] true 
 Example C13_ex_trace : trace ex_cfg ex_req =
   [Read 100 100; Read 68 30; Read 38 38; User; Start ROk None; Chunk 4; Chunk 4; CtxClose; WsgiClose].
 Proof. reflexivity. Qed.
-Example C13_ex_one_start : total_layers ex_req /\ join_ok ex_cfg ex_req
+Example C13_ex_one_start : total_layers ex_req
   /\ count is_start (trace ex_cfg ex_req) = 1%nat /\ count is_ctxclose (trace ex_cfg ex_req) = 1%nat.
-Proof. repeat split; try discriminate; try reflexivity. eexists; reflexivity. left; reflexivity. Qed.
+Proof. repeat split; try discriminate; try reflexivity. eexists; reflexivity. Qed.
 (* declared 300 > 250 *)
 Example C13_ex_too_long :
   trace ex_cfg (Req false WNoDoc (Some [51; 48; 48]) [300] true SOk SOk (UReturn RPlain)
@@ -132,6 +122,12 @@ Example C13_ex_undeclared :
   trace ex_cfg (Req false WNoDoc None [100; 100; 68] true SOk SOk (UReturn RPlain)
                     (SerOk (BSized [261])) (ESerOk [330]) None true)
   = [Read 100 100; Read 100 100; Read 50 50; Start (RErr FTooLong) (Some 330); Chunk 330; CtxClose; WsgiClose].
+Proof. reflexivity. Qed.
+(* chunked=False, the lazily produced body fails while it is joined: answered as a Server fault *)
+Example C13_ex_lazy_join_fails :
+  trace (Cfg false 100 10) (Req false WNoDoc None [] false SOk SOk (UReturn (RGen FItem))
+                                (SerOk (BLazy [3] true)) (ESerOk [5]) None true)
+  = [User; Start (RErr FOther) (Some 5); Chunk 5; CtxClose; WsgiClose].
 Proof. reflexivity. Qed.
 (* Content-Length present, full consumption *)
 Example C13_ex_clen : In (Start ROk (Some 12)) (trace (Cfg false 250 100)
